@@ -401,6 +401,13 @@ func (c *fctx) globalFacts(g *ssa.Global, st *state) {
 	if !c.used["global-fact:"+key] {
 		c.used["global-fact:"+key] = true
 		c.assume(fact)
+		// sentinel errors created by distinct errors.New / fmt.Errorf calls are distinct values
+		if c.P.GlobalInitFresh(g) {
+			for _, o := range c.freshGlobals {
+				c.assume(fmt.Sprintf("(not (= %s %s))", init, o))
+			}
+			c.freshGlobals = append(c.freshGlobals, init)
+		}
 	}
 }
 
